@@ -284,6 +284,9 @@ class Polynomial(Expression):
             return -1
     degree = property(_degree)
 
+    # names of the attributes holding the values of __getinitargs__ (used for unpickling)
+    init_arg_names = ("Base", "Data", "Unit", "VarLess")
+
     def __getinitargs__(self):
         return (self.Base, self.Data, self.Unit, self.VarLess)
 
